@@ -71,6 +71,19 @@ Section CacheProofs.
       apply N.ltb_lt. exact Hlt.
   Qed.
 
+  Lemma create_and_save_spec : forall fs now lr fp,
+      snd (snd (create_and_save G FP pg_of create_table fs now lr fp (current fs)))
+      = fresh lr (current fs) fp /\
+      (forall t, create_table (current fs) fp = Ok t ->
+                 fs_cache (fst (create_and_save G FP pg_of create_table fs now lr fp (current fs)))
+                 = Some (now, Full (to_ser t))).
+  Proof.
+    intros fs now lr fp. unfold Cache.create_and_save, Cache.fresh.
+    destruct (create_table (current fs) fp) as [t|e]; simpl.
+    - split; [reflexivity|]. intros t' Ht. inversion Ht. reflexivity.
+    - split; [reflexivity|]. intros t' Ht. discriminate.
+  Qed.
+
   Lemma construct_rebuilds : forall fs now lr fp,
       (fs_cache fs = None \/
        exists tc c f, fs_cache fs = Some (tc, c) /\ In f (imported (current fs))
@@ -80,10 +93,30 @@ Section CacheProofs.
                  fs_cache (fst (construct fs now lr fp)) = Some (now, Full (to_ser t))).
   Proof.
     intros fs now lr fp H. apply must_create_spelled in H.
-    unfold Cache.construct, Cache.fresh. rewrite H.
-    destruct (create_table (current fs) fp) as [t|e]; simpl.
-    - split; [reflexivity|]. intros t' Ht. inversion Ht. reflexivity.
-    - split; [reflexivity|]. intros t' Ht. discriminate.
+    unfold Cache.construct. rewrite H. apply create_and_save_spec.
+  Qed.
+
+  (* a cache file that cannot be loaded -- whatever its age -- is treated as absent *)
+  Lemma construct_unloadable_rebuilds : forall fs now lr fp tc c e,
+      fs_cache fs = Some (tc, c) ->
+      load_cache (current fs) c = Raise e ->
+      snd (snd (construct fs now lr fp)) = fresh lr (current fs) fp /\
+      (forall t, create_table (current fs) fp = Ok t ->
+                 fs_cache (fst (construct fs now lr fp)) = Some (now, Full (to_ser t))).
+  Proof.
+    intros fs now lr fp tc c e Hc Hl. unfold Cache.construct.
+    destruct (must_create fs (current fs)); [apply create_and_save_spec|].
+    rewrite Hc. rewrite Hl. apply create_and_save_spec.
+  Qed.
+
+  Lemma construct_broken_rebuilds : forall fs now lr fp tc,
+      fs_cache fs = Some (tc, Broken) ->
+      snd (snd (construct fs now lr fp)) = fresh lr (current fs) fp /\
+      (forall t, create_table (current fs) fp = Ok t ->
+                 fs_cache (fst (construct fs now lr fp)) = Some (now, Full (to_ser t))).
+  Proof.
+    intros fs now lr fp tc Hc.
+    apply construct_unloadable_rebuilds with tc Broken EJSONDecode; [exact Hc | reflexivity].
   Qed.
 
   (* ---- transparency on disciplined histories ----------------------------- *)
@@ -97,9 +130,10 @@ Section CacheProofs.
     | None => True
     | Some (tc, c) =>
         tc <= t /\
-        exists tb, c = Full (to_ser tb) /\
-                   (newer_file fs (current fs) tc = false ->
-                    create_table (current fs) fp = Ok tb)
+        (c = Broken \/
+         exists tb, c = Full (to_ser tb) /\
+                    (newer_file fs (current fs) tc = false ->
+                     create_table (current fs) fp = Ok tb))
     end.
 
   Lemma inv_mono : forall fs t t', inv fs t -> t <= t' -> inv fs t'.
@@ -137,8 +171,9 @@ Section CacheProofs.
       + specialize (Hf f' mv Hin). lia.
     - unfold set_file at 1. simpl.
       destruct (fs_cache fs) as [[tc c]|]; [|exact I].
-      destruct Hc as [Htc [tb [Hfull Himp]]].
-      split; [lia|]. exists tb. split; [exact Hfull|].
+      destruct Hc as [Htc [Hbroken | [tb [Hfull Himp]]]].
+      { split; [lia | left; exact Hbroken]. }
+      split; [lia|]. right. exists tb. split; [exact Hfull|].
       intros Hnew.
       set (fs1 := set_file fs f (now, v)) in *.
       (* the edited file is newer than the cache, so the new grammar does not read it *)
@@ -174,8 +209,32 @@ Section CacheProofs.
   Proof.
     intros fs t now tb [Hf _] Hlt Hct. split.
     - intros f mv Hin. simpl in Hin. specialize (Hf f mv Hin). lia.
-    - simpl. split; [lia|]. exists tb. split; [reflexivity|]. intros _.
+    - simpl. split; [lia|]. right. exists tb. split; [reflexivity|]. intros _.
       rewrite <- Hct. f_equal.
+  Qed.
+
+  Lemma inv_broken : forall fs t now,
+      inv fs t -> t < now -> inv (mkFS (fs_files fs) (Some (now, Broken))) now.
+  Proof.
+    intros fs t now [Hf _] Hlt. split.
+    - intros f mv Hin. simpl in Hin. specialize (Hf f mv Hin). lia.
+    - simpl. split; [lia | left; reflexivity].
+  Qed.
+
+  (* create_and_save from an invariant state: result is the cache-free one and the
+     invariant is re-established *)
+  Lemma create_and_save_sim : forall fs t now lr,
+      inv fs t -> t < now ->
+      inv (fst (create_and_save G FP pg_of create_table fs now lr fp (current fs))) now /\
+      fs_files (fst (create_and_save G FP pg_of create_table fs now lr fp (current fs)))
+      = fs_files fs /\
+      snd (snd (create_and_save G FP pg_of create_table fs now lr fp (current fs)))
+      = fresh lr (current fs) fp.
+  Proof.
+    intros fs t now lr Hinv Hlt. unfold Cache.create_and_save, Cache.fresh.
+    destruct (create_table (current fs) fp) as [tb|e] eqn:Hct; simpl.
+    - split; [eapply inv_write; eauto|]. split; reflexivity.
+    - split; [eapply inv_mono; eauto; lia|]. split; reflexivity.
   Qed.
 
   Lemma step_sim : forall fs fs' t now o,
@@ -189,28 +248,38 @@ Section CacheProofs.
     pose proof (current_files _ _ Hfiles) as Hcur.
     destruct o as [lr fp' | fp' | fp' | f v | f | | ]; simpl in Hok; try contradiction.
     - (* Construct *)
-      subst fp'. simpl. unfold Cache.construct.
+      subst fp'. simpl.
+      destruct (create_and_save_sim fs t now lr Hinv Hlt) as [Ci [Cf Cr]].
+      unfold Cache.construct.
       destruct (must_create fs (current fs)) eqn:Hmc.
-      + destruct (create_table (current fs) fp) as [tb|e] eqn:Hct; simpl.
-        * split; [eapply inv_write; eauto|]. split; [exact Hfiles|].
-          unfold Cache.fresh. rewrite <- Hcur. rewrite Hct. reflexivity.
-        * split; [eapply inv_mono; eauto|]. split; [exact Hfiles|].
-          unfold Cache.fresh. rewrite <- Hcur. rewrite Hct. reflexivity.
+      + split; [exact Ci|]. split; [rewrite Cf; exact Hfiles|].
+        rewrite Cr. rewrite Hcur. reflexivity.
       + unfold Cache.must_create in Hmc.
-        destruct Hinv as [Hf Hc].
         destruct (fs_cache fs) as [[tc c]|] eqn:Hcache; [|discriminate].
-        destruct Hc as [Htc [tb [Hfull Himp]]]. simpl.
-        split; [apply inv_mono with t; [split; [exact Hf|]|exact Hle]|].
-        { rewrite Hcache. split; [exact Htc|]. exists tb. split; assumption. }
-        split; [exact Hfiles|].
-        specialize (Himp Hmc). subst c. unfold Cache.load_cache.
-        rewrite from_ser_to_ser; [|eapply Hwf; eauto].
-        unfold Cache.fresh. rewrite <- Hcur. rewrite Himp. reflexivity.
+        destruct (load_cache (current fs) c) as [tl|e] eqn:Hload.
+        * (* the file loads: by the invariant it holds the right table *)
+          simpl. split; [eapply inv_mono; eauto|]. split; [exact Hfiles|].
+          destruct Hinv as [Hf Hc]. rewrite Hcache in Hc.
+          destruct Hc as [Htc [Hbroken | [tb [Hfull Himp]]]].
+          { subst c. simpl in Hload. discriminate. }
+          specialize (Himp Hmc). subst c. unfold Cache.load_cache in Hload.
+          rewrite from_ser_to_ser in Hload; [|eapply Hwf; eauto].
+          inversion Hload. subst tl.
+          unfold Cache.fresh. rewrite <- Hcur. rewrite Himp. reflexivity.
+        * split; [exact Ci|]. split; [rewrite Cf; exact Hfiles|].
+          rewrite Cr. rewrite Hcur. reflexivity.
     - (* Compile *)
       subst fp'. simpl.
       destruct (create_table (current fs) fp) as [tb|e] eqn:Hct; simpl.
       + split; [eapply inv_write; eauto|]. split; [exact Hfiles | reflexivity].
       + split; [eapply inv_mono; eauto|]. split; [exact Hfiles | reflexivity].
+    - (* Crash: leaves a broken file or nothing *)
+      simpl.
+      destruct (will_write G imported pg_of fs (current fs)).
+      + destruct (create_table (current fs) fp') as [tb|e]; simpl.
+        * split; [eapply inv_broken; eauto|]. split; [exact Hfiles | reflexivity].
+        * split; [eapply inv_mono; eauto|]. split; [exact Hfiles | reflexivity].
+      + simpl. split; [eapply inv_mono; eauto|]. split; [exact Hfiles | reflexivity].
     - (* Edit *)
       simpl. split; [eapply inv_set_file; eauto|]. rewrite Hfiles. split; reflexivity.
     - (* Touch *)
@@ -360,11 +429,12 @@ Proof.
   repeat split; auto using w_local, w_wf.
 Qed.
 
-(* an interrupted write, then a construction with the very same options *)
+(* an interrupted write, then a construction with the very same options: since the
+   repair the broken file is treated as absent *)
 Definition h_crash : list (N * op bool) := [(1, Crash true); (2, Construct true true)].
-Lemma truncated_refuted_w :
-  clocked 0 h_crash /\ w_run h_crash = [Raise EJSONDecode] /\ w_spec h_crash = [Ok tbl_lr].
-Proof. split; [simpl; lia|]. split; vm_compute; reflexivity. Qed.
+Lemma truncated_rebuilds_w :
+  w_run h_crash = [Ok tbl_lr] /\ w_spec h_crash = [Ok tbl_lr].
+Proof. split; vm_compute; reflexivity. Qed.
 
 (* the .pgc is touched after the grammar was edited: stale table, one fingerprint *)
 Definition h_touch : list (N * op bool) :=
@@ -385,10 +455,11 @@ Proof. split; vm_compute; reflexivity. Qed.
    the cache is really used (second construction loads, fourth rebuilds) *)
 Definition h_good : list (N * op bool) :=
   [(1, Construct false false); (2, Construct false false); (3, Edit 1 1);
-   (4, Construct false false); (5, Touch 1); (6, Compile false); (7, Construct false false)].
+   (4, Construct false false); (5, Touch 1); (6, Compile false); (7, Construct false false);
+   (8, Touch 1); (9, Crash true); (10, Construct false false)].
 Lemma nonvacuous_w :
   disciplined bool false 0 h_good /\
-  v_run h_good = [Ok tbl_glr; Ok tbl_glr; Ok tbl_lr; Ok tbl_lr] /\
+  v_run h_good = [Ok tbl_glr; Ok tbl_glr; Ok tbl_lr; Ok tbl_lr; Ok tbl_lr] /\
   table_wfb gE tbl_glr = true /\ from_ser gE (to_ser tbl_glr) = Ok tbl_glr.
 Proof.
   split; [simpl; repeat split; lia|]. repeat split; vm_compute; reflexivity.
